@@ -34,7 +34,9 @@ public:
   std::vector<event> trace;           // evaluated conditions and assertion outcomes, in order
   std::vector<std::pair<const void *, form>> asserts_seen; // (statement, condition value) for every assert executed
   const void *cur_stmt = nullptr;
-  bool in_trace_mode = false;         // record conditions instead of forking (used by C17/C18)
+  bool in_trace_mode = false;
+  bool assert_failed = false;         // the execution ended at a violated assertion
+  const void *failed_stmt = nullptr;         // record conditions instead of forking (used by C17/C18)
 
   term get(const var_t &v) {
     auto it = env.find(v.index());
@@ -63,6 +65,13 @@ public:
   }
   void require(const form &f) { // the execution continues only where f holds
     if (!sx::decide(f)) throw stop_execution();
+  }
+  void require_assert(const form &f, const void *stmt) {
+    if (!sx::decide(f)) {
+      assert_failed = true;
+      failed_stmt = stmt;
+      throw stop_execution();
+    }
   }
   term pow2(const term &k) {
     term r(1);
@@ -123,7 +132,7 @@ public:
     form c = eval(s.constraint());
     asserts_seen.push_back({(const void *)&s, c});
     trace.push_back({"assert", "", c});
-    require(c);
+    require_assert(c, (const void *)&s);
   }
   void visit(int_cast_t &s) override { throw sxe::no_verdict{"interp: int_cast not modelled"}; }
   void visit(unreach_t &) override { throw stop_execution(); }
@@ -165,7 +174,7 @@ public:
     form c = get(s.cond()) == term(1);
     asserts_seen.push_back({(const void *)&s, c});
     trace.push_back({"assert", "", c});
-    require(c);
+    require_assert(c, (const void *)&s);
   }
 
   // run from block `start`; on_block(label, at_entry, *this) is called at every block entry/exit
